@@ -353,7 +353,10 @@ func c18ApplySeq(o int, seq []int) int {
 
 // generator -------------------------------------------------------------------------------------
 
-var c18Leaves = []string{"a", "b", "A", "B", "k", "c", "[a-c]", "[^b]", "[B]", `[ #a]`, ".", ".", "^", "$", "^", "$", `\n`, `\w`, `\b`, " ", " ", "\t", "#c\n", "# a\n", "\n", `\ `, `\#`, "ab", "Ab "}
+var c18Leaves = []string{"a", "b", "A", "B", "k", "c", "[a-c]", "[^b]", "[B]", `[ #a]`, ".", ".", "^", "$", "^", "$", `\n`, `\w`, `\b`, " ", " ", "\t", "#c\n", "# a\n", "\n", `\ `, `\#`, "ab", "Ab ",
+	// constructs with their own parentheses: the parser's paren bookkeeping (ignoreNextParen, the option and
+	// group stacks) has to come out of them as it went in, under every option set
+	"(?(a)a|c)", "(?(?=a)a|c)", "(?(?!c)a|c)", "(?=a)", "(?!c)", "(?<=a)", "(?>a)", "(?#c)"}
 var c18Quants = []string{"", "", "", "", "*", "+", "?", "*?", "+?", "{2}", "{1,2}?"}
 
 func c18Seq(rng *rand.Rand) []int {
@@ -422,6 +425,9 @@ func c18LeafTexts(ns []c18Node, out *[]string) {
 			case n.Src == `\n`:
 				*out = append(*out, "\n")
 			case n.Src[0] == '^' || n.Src[0] == '$' || n.Src == `\b` || strings.HasPrefix(n.Src, "(?P="):
+			case strings.HasPrefix(n.Src, "(?(") || n.Src == "(?>a)":
+				*out = append(*out, "a")
+			case strings.HasPrefix(n.Src, "(?"):
 			case n.Src[0] == '\\':
 				*out = append(*out, n.Src[1:])
 			default:
@@ -454,6 +460,24 @@ func c18AddPyRefs(rng *rand.Rand, ns []c18Node, seen *[]string) []c18Node {
 func c18Gen(rng *rand.Rand, i int) c18Case {
 	names := 0
 	cs := c18Case{Pat: c18GenItems(rng, 0, &names)}
+	if i%4 != 3 && rng.Intn(6) == 0 {
+		// a construct with its own parentheses as the LAST thing of a scope that changes n (or another flag),
+		// directly followed by a plain group: whatever the parser remembers about parentheses must not leak out
+		paren := []string{"(?(a)a|c)", "(?(?=a)a|c)", "(?(?!c)a|c)", "(?=a)", "(?>a)", "(?#c)"}[rng.Intn(6)]
+		seq := []int{[]int{3, 3, 3, 1, -3, 5}[rng.Intn(6)]}
+		inner := []c18Node{{K: "leaf", Src: []string{"a", "b", "."}[rng.Intn(3)]}, {K: "leaf", Src: paren}}
+		var scope c18Node
+		if rng.Intn(2) == 0 {
+			scope = c18Node{K: "sc", Opt: seq, Kids: inner}
+		} else {
+			scope = c18Node{K: "grp", Cap: 1, Kids: append([]c18Node{{K: "opt", Opt: seq}}, inner...)}
+		}
+		after := c18Node{K: "grp", Cap: 0, Kids: []c18Node{{K: "leaf", Src: []string{"b", "c", "a"}[rng.Intn(3)]}}}
+		cs.Pat = append(cs.Pat, scope, after)
+		if rng.Intn(2) == 0 {
+			cs.Pat = append(cs.Pat, c18Node{K: "leaf", Src: "a"})
+		}
+	}
 	if i%4 == 3 {
 		cs.Re2 = true
 		if names == 0 {
@@ -814,5 +838,6 @@ func init() {
 			Corpus: corpus, N: c.N(800, 12000), Gen: c18Gen, Check: c18Check,
 		})
 		parserLeg(c, 400, 6000) // leg Pr: the parser model (parser.go)
+		c18ParenLeg(c)          // leg Op: option scopes around constructs with parentheses (c18paren.go)
 	})
 }
